@@ -27,14 +27,20 @@ META = {
                   "Exception; waiting later for such an activity must raise at once; no call may report success on it (completion exactly at the "
                   "fault date is accepted as a tie), test() must not present it as finished without error; no survivor may be killed or remain "
                   "blocked on it until the end of the run; exceptions on activities whose resources never failed are spurious.",
-    "level_note": "Sequential kernel (default context factory on the plain flavour, thread factory under ASan). Which put meets which get is "
-                  "modelled (FIFO per mailbox, log order = kernel order) and cross-checked against the payload of every successful get and against "
-                  "Comm::get_sender/get_receiver after every asynchronous post; a disagreement makes the run inconclusive. Asynchronous execs/IOs "
-                  "nobody waits for have no observable completion date: they are judged only when the fault precedes start + amount/speed. "
-                  "An unmatched put/get whose only possible peer died is not an activity involving a resource: the deadlock that follows is not judged. "
-                  "Left-over detached sends of dead actors that a later get matches are not judged. Routes are symmetric and links SHARED, so that "
-                  "'the comm uses the link' does not depend on cross-traffic. join() on an actor killed with its host is only required to return. "
-                  "Completion dates of unaffected activities are not compared with the fault-free run (sharing changes them).",
+    "level_note": "Sequential kernel (default context factory on the plain flavour, thread factory under ASan; the sanitized flavour runs every "
+                  "explicit directed schedule and a tenth of the enumerations). Which put meets which get is modelled (FIFO per mailbox, log order = "
+                  "kernel order) and cross-checked against the payload of every successful get and against Comm::get_sender/get_receiver after "
+                  "every asynchronous post; a disagreement makes the run inconclusive. Dates are compared with SimGrid's timing precision (1e-9; "
+                  "the fault points are 1e-6 apart) because the clock of a state-profile event and of the events that follow may differ by an ulp. "
+                  "Asynchronous execs/IOs nobody waits for have no observable completion date: they are judged only when the fault precedes "
+                  "start + amount/speed. The on_exit callback of a killed actor is demanded only when its registration had returned. An unmatched "
+                  "put/get whose only possible peer died is not an activity involving a resource: the deadlock that follows is not judged. Left-over "
+                  "detached sends of dead actors that a later get matches are not judged (but must not crash). Routes are symmetric and links SHARED, "
+                  "so that 'the comm uses the link' does not depend on cross-traffic. join() on an actor killed with its host is only required to "
+                  "return. Completion dates of unaffected activities are not compared with the fault-free run (sharing changes them). Quick tier: "
+                  "the enumeration of a generated scenario is thinned evenly to ~200 schedules with the injection path rotating; thorough: every "
+                  "resource x fault point x path. An oracle self-test (10 kinds of corruption of healthy logs of the directed probe scenario) "
+                  "runs inside every run and fails the harness when a corruption is missed.",
     "rule": "case = (scenario, fault schedule); non-trivial = distinct cases in which the fault was applied and at least one demand of the "
             "statement was checked on the history (a killed actor's on_exit, an exception due at the fault date, a wait on a failed activity)",
     "assumptions": [
